@@ -52,19 +52,20 @@ Theorem C17_decode_prefix : forall (Pix : Type) (lossy_dec lossless_dec : list Z
 Proof. exact decode_prefix. Qed.
 Print Assumptions C17_decode_prefix.
 
-(** Pinned tree: the statement is false (finding). *)
+(** Pinned tree (parser before commit 86109c7, [pinned_*] definitions): the
+    statement is false (finding, repaired). *)
 Theorem C17_features_prefix_refuted :
   exists bs p r g g',
-    parse_ex false bs = Ok (r, KStill) /\ proper_prefix p bs /\
-    get_features false bs = Ok g /\ get_features false p = Ok g' /\
+    pinned_parse_ex bs = Ok (r, KStill) /\ proper_prefix p bs /\
+    pinned_get_features bs = Ok g /\ pinned_get_features p = Ok g' /\
     gFrames g = 1 /\ gFrames g' = 0.
 Proof. exact features_prefix_refuted. Qed.
 Print Assumptions C17_features_prefix_refuted.
 
 Theorem C17_config_prefix_refuted :
   exists bs p r c c',
-    parse_ex false bs = Ok (r, KStill) /\ proper_prefix p bs /\
-    decode_config false false bs = Ok c /\ decode_config false false p = Ok c' /\
+    pinned_parse_ex bs = Ok (r, KStill) /\ proper_prefix p bs /\
+    pinned_decode_config bs = Ok c /\ pinned_decode_config p = Ok c' /\
     cModel c = CM_NRGBA /\ cModel c' = CM_YCbCr.
 Proof. exact config_prefix_refuted. Qed.
 Print Assumptions C17_config_prefix_refuted.
